@@ -18,7 +18,7 @@ PLAN = {
     "C03": {"runs": [("conc", "interleave", 120, 3000, ["--ext"]), ("conc", "race", 240, 8000, []), ("locks", "stress", 300, 2000, []), ("stress", "threads", 400, 3000, []), (S, "nopressure", 320, 8000, []), (S, "ttl", 80, 2000, [])]},
     "C04": {"runs": [("conc", "interleave", 120, 3000, ["--ext"]), ("conc", "race", 240, 8000, []), ("locks", "stress", 300, 2000, []), ("stress", "threads", 400, 3000, []), (S, "mixed", 240, 6000, []), (S, "ttl", 120, 3000, []), (S, "burst", 120, 3000, [])]},
     "C05": {"runs": [("conc", "interleave", 120, 3000, ["--ext"]), ("conc", "race", 240, 8000, []), ("locks", "stress", 300, 2000, []), ("stress", "threads", 400, 3000, []), (S, "burst", 240, 6000, []), (S, "pressure", 160, 4000, []), (S, "mixed", 80, 2000, [])]},
-    "C06": {"runs": [("pure", "tables", 1, 1, []), ("locks", "stress", 300, 2000, []), (S, "pressure", 400, 10000, []), (S, "reads", 80, 2000, [])]},
+    "C06": {"runs": [("pure", "tables", 1, 1, []), ("locks", "stress", 300, 2000, []), ("stress", "threads", 400, 3000, []), (S, "pressure", 400, 10000, []), (S, "reads", 80, 2000, [])]},
     "C07": {"runs": [("conc", "interleave", 120, 3000, ["--ext"]), ("conc", "race", 240, 8000, []), ("locks", "stress", 300, 2000, []), (S, "ttl", 240, 6000, []), (S, "mixed", 160, 4000, []), (S, "burst", 80, 2000, [])]},
     "C08": {"runs": [("pure", "tables", 1, 1, []), ("conc", "interleave", 120, 3000, ["--ext"]), ("conc", "race", 240, 8000, []), ("locks", "stress", 300, 2000, []), (S, "ttl", 240, 6000, []), (S, "mixed", 240, 6000, [])]},
     "C09": {"runs": [("conc", "interleave", 120, 3000, ["--ext"]), ("conc", "race", 240, 8000, []), ("locks", "stress", 300, 2000, []), (S, "ttl", 400, 10000, []), (S, "mixed", 80, 2000, [])]},
@@ -27,7 +27,7 @@ PLAN = {
     "C12": {"runs": [("ack", "polls", 2, 3, []), ("locks", "stress", 300, 2000, []), ("stress", "threads", 400, 3000, []), (S, "burst", 160, 4000, []), (S, "mixed", 80, 2000, [])],
             "rule": "every interleaving of done() with the polls of 1-2 tasks on the real acknowledgement (schedule points inside done/poll), every schedule prefix compared with CachedModel/Ack.lean; plus Layer A histories with polls; non-trivial = a schedule in which a poll overlaps done()"},
     "C13": {"runs": [("conc", "interleave", 160, 4000, ["--ext"]), ("conc", "race", 240, 8000, []), ("locks", "stress", 500, 4000, []), ("ack", "polls", 2, 3, []), (S, "burst", 400, 10000, []), (S, "mixed", 80, 2000, [])]},
-    "C14": {"runs": [("pure", "tables", 1, 1, []), ("locks", "stress", 300, 2000, []), (S, "reads", 320, 8000, [])],
+    "C14": {"runs": [("pure", "tables", 1, 1, []), ("locks", "stress", 300, 2000, []), ("stress", "threads", 400, 3000, []), (S, "reads", 320, 8000, [])],
             "rule": "exhaustive tables: all 256 byte values x 3 neighbours x 7 positions for Row::increment_at/get_at/half/clear, next_power_2 around every power of two, FrequencyCounter / TinyLFU streams for 30 counter sizes; plus Layer A histories with the consumer; non-trivial = a case that exercises the sketch"},
     "C15": {"runs": [("conc", "interleave", 120, 3000, ["--ext"]), ("conc", "race", 240, 8000, []), ("locks", "stress", 300, 2000, []), ("stress", "threads", 400, 3000, []), (S, "reads", 400, 10000, []), (S, "bigbuf", 48, 1200, []), (S, "mixed", 80, 2000, [])]},
     "C16": {"runs": [("pure", "tables", 1, 1, []), ("locks", "stress", 300, 2000, []), ("stress", "threads", 400, 3000, []), (S, "mixed", 240, 6000, []), (S, "reads", 120, 3000, []), (S, "pressure", 120, 3000, [])]},
